@@ -1,7 +1,276 @@
-import PsutilModel.Model.C04Gen
-import PsutilModel.Spec.C04
-namespace Psutil.C04
+/-
+  Props/C04.lean — property theorems for C04 (`pids()`, `pid_exists()`, `process_iter()`).
+  Helper lemmas live in Proofs/C04*.lean.
 
-theorem cfg_good : cfg.drainFirst = true ∧ cfg.rangeGuard = true := by decide
+  `cfg` is built from Generated/C04.lean, which the translator rewrites from /repo's source on
+  every run; `cfg_good` is the proof obligation that breaks when `process_iter` computes the
+  set differences before draining `_pids_reused` (lead L19), when `pid_exists` lets the
+  OverflowError of an out-of-range int escape (lead L4), or when `pid`/`ppid` stop being valid
+  `as_dict` names of the kinds the model assumes.
+-/
+import PsutilModel.Proofs.C04
+import PsutilModel.Model.C04Gen
+namespace Psutil.C04
+open Spec
+
+/-- what the theorems need of the translator facts -/
+structure Cfg.Good (c : Cfg) : Prop where
+  drain : c.drainFirst = true
+  range : c.rangeGuard = true
+  pidValid : c.validNames.contains "pid" = true
+  pidNoAccess : c.noAccessAttrs.contains "pid" = true
+  reuseValid : c.reuseAttrs.all c.validNames.contains = true
+  reuseAccess : c.reuseAttrs.all (fun n => !c.noAccessAttrs.contains n) = true
+
+theorem cfg_good : cfg.Good := by
+  refine ⟨?_, ?_, ?_, ?_, ?_, ?_⟩ <;> decide
+
+/-! ## `pids()` -/
+
+/-- an entry of the procfs root: a process directory or something whose name is not all digits -/
+inductive DirEntry
+  | proc (pid : Nat)
+  | other (name : Bytes)
+
+def DirEntry.name : DirEntry → Bytes
+  | .proc pid => renderDec pid
+  | .other n => n
+
+def DirEntry.pid? : DirEntry → Option Nat
+  | .proc pid => some pid
+  | .other _ => none
+
+/-- **C04_listing_exact.** Whatever else the procfs root contains and in whatever order the
+    directory is read, `_pslinux.pids()` returns exactly the PIDs of the process directories
+    (kernel fact used: no other entry of `/proc` has an all-digit name). -/
+theorem C04_listing_exact (es : List DirEntry)
+    (hother : ∀ n, DirEntry.other n ∈ es → isDigitName n = false) :
+    pidsOfEntries (es.map DirEntry.name) = es.filterMap DirEntry.pid? := by
+  induction es with
+  | nil => rfl
+  | cons e es ih =>
+    have ih' := ih (fun n hn => hother n (by simp [hn]))
+    cases e with
+    | proc pid =>
+      have hd : isDigitName (renderDec pid) = true := by
+        simp only [isDigitName, Bool.and_eq_true, Bool.not_eq_true', List.isEmpty_eq_false_iff,
+          List.all_eq_true]
+        exact ⟨renderDec_ne_nil pid, renderDec_isDigit pid⟩
+      simp only [pidsOfEntries, List.map_cons, DirEntry.name, List.filterMap_cons, hd, if_true,
+        parseDec_renderDec, DirEntry.pid?] at ih' ⊢
+      rw [ih']
+    | other n =>
+      have hd := hother n (by simp)
+      simp only [pidsOfEntries, List.map_cons, DirEntry.name, List.filterMap_cons, hd,
+        Bool.false_eq_true, if_false, DirEntry.pid?] at ih' ⊢
+      rw [ih']
+
+/-- **C04_pids_sorted_exact.** For every non-empty table with one entry per PID, `pids()` returns
+    the strictly ascending list whose members are exactly the listed PIDs. -/
+theorem C04_pids_sorted_exact (c : Cfg) (s : St) (hne : s.k.procs ≠ []) (hnd : s.k.listdir.Nodup) :
+    ∃ l, (step c s .pids).2 = .pidList l ∧ IsPidList s.k l := by
+  have hsorted := sortNat_sorted s.k.listdir hnd
+  have hmem : ∀ n, n ∈ sortNat s.k.listdir ↔ ∃ p ∈ s.k.procs, p.pid = n := by
+    intro n; rw [mem_sortNat, mem_listdir]
+  simp only [step, pidsCall]
+  cases hs : sortNat s.k.listdir with
+  | nil =>
+    exfalso
+    cases hp : s.k.procs with
+    | nil => exact hne hp
+    | cons p ps =>
+      have : p.pid ∈ sortNat s.k.listdir := (hmem p.pid).mpr ⟨p, by simp [hp], rfl⟩
+      rw [hs] at this; simp at this
+  | cons p ps =>
+    refine ⟨p :: ps, rfl, ?_⟩
+    rw [← hs]
+    exact ⟨hsorted, hmem⟩
+
+/-- the ascending PID list is unique: any list meeting the specification is what `pids()` returns -/
+theorem C04_pids_unique (k : Kernel) (l1 l2 : List Nat) (h1 : IsPidList k l1) (h2 : IsPidList k l2) :
+    l1 = l2 :=
+  eq_of_sorted_mem h1.1 h2.1 (fun a => by rw [h1.2, h2.2])
+
+/-- `pids()` records the smallest PID in `_LOWEST_PID` -/
+theorem C04_pids_sets_lowest (c : Cfg) (s : St) (l : List Nat) (h : (step c s .pids).2 = .pidList l)
+    (hnd : s.k.listdir.Nodup) :
+    ∃ m, (step c s .pids).1.lowest = some m ∧ m ∈ s.k.listdir ∧ ∀ n ∈ s.k.listdir, m ≤ n := by
+  have hsorted := sortNat_sorted s.k.listdir hnd
+  simp only [step, pidsCall] at h ⊢
+  cases hs : sortNat s.k.listdir with
+  | nil => rw [hs] at h; simp at h
+  | cons p ps =>
+    rw [hs] at hsorted
+    refine ⟨p, rfl, ?_, ?_⟩
+    · rw [← mem_sortNat, hs]; simp
+    · intro n hn
+      rw [← mem_sortNat, hs] at hn
+      rcases List.mem_cons.mp hn with e | hm
+      · omega
+      · exact Nat.le_of_lt ((List.pairwise_cons.mp hsorted).1 n hm)
+
+/-! ## `pid_exists()` -/
+
+/-- **C04_pidExists_iff.** For every integer `n` (negative, zero, thread id, id of a foreign
+    process, id whose status file cannot be read or lacks its `Tgid:` line, out of `pid_t`
+    range…) and every well-formed non-empty table, `pid_exists(n)` returns a bool — never an
+    exception — which is True exactly when `n` is a listed PID. -/
+theorem C04_pidExists_iff (c : Cfg) (hg : c.Good) (s : St) (hwf : s.k.WF) (hne : s.k.procs ≠ [])
+    (n : Int) :
+    ∃ b, (step c s (.pidExists n)).2 = .bool b ∧ (b = true ↔ Spec.Exists s.k n) := by
+  simp only [step, pidExists]
+  by_cases hneg : n < 0
+  · refine ⟨false, by simp [hneg], ?_⟩
+    simp only [Bool.false_eq_true, false_iff, Spec.Exists]
+    omega
+  · simp only [hneg, if_false]
+    have hn0 : 0 ≤ n := by omega
+    have hcast : ((n.toNat : Nat) : Int) = n := Int.toNat_of_nonneg hn0
+    have hex : Spec.Exists s.k n ↔ n.toNat ∈ s.k.listdir := by
+      rw [mem_listdir]
+      simp only [Spec.Exists, hn0, true_and]
+      constructor
+      · rintro ⟨p, hp, e⟩; exact ⟨p, hp, by omega⟩
+      · rintro ⟨p, hp, e⟩; exact ⟨p, hp, by omega⟩
+    by_cases hz : n.toNat = 0
+    · -- pid 0: `0 in pids()`
+      simp only [hz, beq_self_eq_true, if_true, pidsCall]
+      cases hs : sortNat s.k.listdir with
+      | nil =>
+        exfalso
+        cases hp : s.k.procs with
+        | nil => exact hne hp
+        | cons p ps =>
+          have : p.pid ∈ sortNat s.k.listdir := by rw [mem_sortNat, mem_listdir]; exact ⟨p, by simp [hp], rfl⟩
+          rw [hs] at this; simp at this
+      | cons p ps =>
+        refine ⟨(p :: ps).contains 0, rfl, ?_⟩
+        rw [hex, hz, ← mem_sortNat, hs]
+        simp
+    · have hzb : (n.toNat == 0) = false := by simpa using hz
+      simp only [hzb, Bool.false_eq_true, if_false, hg.range, Bool.true_and, decide_eq_true_eq]
+      by_cases hbig : n.toNat > pidTMax
+      · refine ⟨false, by simp [hbig], ?_⟩
+        simp only [Bool.false_eq_true, false_iff, hex, mem_listdir]
+        rintro ⟨p, hp, e⟩
+        have := hwf.bound p hp
+        omega
+      · simp only [hbig, if_false, platformPidExists, Kernel.kill]
+        cases hfp : s.k.findProc n.toNat with
+        | some p =>
+          have hp := findProc_some hfp
+          have hlisted : n.toNat ∈ s.k.listdir := mem_listdir.mpr ⟨p, hp.1, hp.2⟩
+          have hcontains : s.k.listdir.contains n.toNat = true := by simpa using hlisted
+          refine ⟨true, ?_, by simp [hex, hlisted]⟩
+          simp only [Kernel.readStatus, hfp]
+          cases p.foreign <;> cases p.status <;> simp [hlisted]
+        | none =>
+          have hnl : n.toNat ∉ s.k.listdir := by
+            rw [mem_listdir]; rintro ⟨p, hp, e⟩; exact findProc_none hfp p hp e
+          have hcontains : s.k.listdir.contains n.toNat = false := by simpa using hnl
+          refine ⟨false, ?_, by simp [hex, hnl]⟩
+          simp only [Kernel.readStatus, hfp]
+          cases hft : s.k.findThr n.toNat with
+          | none => simp
+          | some t =>
+            have ht := findThr_some hft
+            have hne' : t.tgid ≠ n.toNat := by rw [← ht.2]; exact hwf.thrTgid t ht.1
+            have hb : (t.tgid == n.toNat) = false := by simpa using hne'
+            simp only
+            cases s.k.findProc t.tgid with
+            | none => simp [hb]
+            | some q => by_cases hq : q.foreign = true <;> simp [hq, hb]
+
+/-- hypotheses of `C04_pidExists_iff` are satisfiable, and threads / foreign processes / broken
+    status files are really covered -/
+example :
+    let k : Kernel := ⟨[⟨1, 10, false, false, .ok⟩, ⟨2, 11, false, true, .unreadable⟩, ⟨3, 12, true, false, .noTgid⟩],
+                       [⟨7, 1, 13⟩]⟩
+    ((List.map (fun n => (step cfg (St.init k) (.pidExists n)).2) [-1, 0, 1, 2, 3, 7, 8, 2147483648])
+      = [.bool false, .bool false, .bool true, .bool true, .bool true, .bool false, .bool false, .bool false]) := by
+  decide
+
+/-- **Lead L4 (pre-fix code).** Without the range guard `pid_exists(2**31)` raises OverflowError
+    although the statement promises a bool for every non-negative int. -/
+theorem C04_pidExists_overflow_counterexample :
+    let bad : Cfg := { cfg with rangeGuard := false }
+    (step bad (St.init ⟨[⟨1, 10, false, false, .ok⟩], []⟩) (.pidExists 2147483648)).2 = .exc "OverflowError" := by
+  decide
+
+/-! ## proved counterexamples (leads re-found through the model; each witness is replayed on the
+    real code by the harness corpus) -/
+
+def p1 : Proc := ⟨1, 101, false, false, .ok⟩
+def p5 : Proc := ⟨5, 105, false, false, .ok⟩
+def p5' : Proc := ⟨5, 999, false, false, .ok⟩     -- PID 5 recycled: another start time
+def p9 : Proc := ⟨9, 109, false, false, .ok⟩
+def k159 : Kernel := ⟨[p1, p5, p9], []⟩
+
+/-- `list(process_iter(attrs))` over a 3-PID table: the generator and four `next`s -/
+def fullIter (g : Nat) (attrs : Attrs := .none) : List Op :=
+  [.iter attrs, .next g [], .next g [], .next g [], .next g []]
+
+/-- the L19 history: iterate; PID 5 is recycled; `is_running()` on the old object notices; iterate -/
+def histL19 : List Op :=
+  fullIter 0 ++ [.kev (.exit 5), .kev (.spawn p5'), .isRunning 1] ++ fullIter 1
+
+/-- **Lead L19 (pre-fix code).** With the set differences computed before `_pids_reused` is
+    drained, the iteration that follows the `is_running()` call yields PIDs 1 and 9 only, although
+    5 is listed — while the specification (and the fixed order) yields a fresh object for 5. -/
+theorem C04_L19_counterexample :
+    let bad : Cfg := { cfg with drainFirst := false }
+    (trace bad (St.init k159) histL19).drop 9
+        = [.yield 0 1 none, .yield 2 9 none, .stop, .stop]
+    ∧ (trace cfg (St.init k159) histL19).drop 9
+        = [.yield 0 1 none, .yield 3 5 none, .yield 2 9 none, .stop]
+    ∧ (strace cfg.validNames cfg.noAccessAttrs (SSt.init k159) histL19).drop 9
+        = [some (.yield 0 1 none), some (.yield 3 5 none), some (.yield 2 9 none), some .stop] := by
+  decide
+
+/-- The identity statement at full strength: for EVERY history the model yields what the
+    shared-cache specification yields. It holds for sequential histories
+    (`C04_refines_sequential`) and is false in general: -/
+def C04_identity_Full : Prop :=
+  ∀ (k : Kernel) (h : List Op), k.WF →
+    (trace cfg (St.init k) h).map some = strace cfg.validNames cfg.noAccessAttrs (SSt.init k) h
+
+/-- **Lead L5.** `g1 = process_iter(); g2 = process_iter(); next(g1); next(g2)`: the two
+    generators yield two different objects for PID 1; the specification yields the same one. -/
+theorem C04_identity_overlap_counterexample : ¬ C04_identity_Full := by
+  intro h
+  have := h ⟨[p1], []⟩ [.iter .none, .iter .none, .next 0 [], .next 1 []]
+    ⟨by decide, by decide, by decide, by decide⟩
+  revert this
+  decide
+
+/-- the whole L5 witness: after `next(g1); next(g2); list(g1); list(g2)` a third iteration yields
+    g2's object (reference 1), not g1's (reference 0) -/
+theorem C04_overlap_later_yields_second :
+    (trace cfg (St.init ⟨[p1], []⟩)
+      [.iter .none, .iter .none, .next 0 [], .next 1 [], .next 0 [], .next 1 [], .iter .none, .next 2 []])
+      = [.gen 0, .gen 1, .yield 0 1 none, .yield 1 1 none, .stop, .stop, .gen 2, .yield 1 1 none] := by
+  decide
+
+/-- **cache_clear() while a generator is suspended** has no lasting effect: the iteration started
+    after it yields the pre-clear objects 0,1,2 again (the specification: fresh ones for the PIDs
+    not yet visited when the cache was cleared). -/
+theorem C04_clear_while_suspended_counterexample :
+    let h : List Op := [.iter .none, .next 0 [], .cacheClear, .next 0 [], .next 0 [], .next 0 []] ++ fullIter 1
+    (trace cfg (St.init k159) h).drop 7 = [.yield 0 1 none, .yield 1 5 none, .yield 2 9 none, .stop]
+    ∧ (strace cfg.validNames cfg.noAccessAttrs (SSt.init k159) h).drop 7
+        = [some (.yield 3 1 none), some (.yield 1 5 none), some (.yield 2 9 none), some .stop] := by
+  decide
+
+/-- **Reuse check inside `as_dict` (`ppid`).** The cached object of the recycled PID 5 makes
+    `ppid()` raise NoSuchProcess, `process_iter(attrs=['ppid'])` takes that for "vanished" and
+    yields 1 and 9 only; the specification yields 5 as well. Not repaired by `drainFirst`. -/
+theorem C04_reuse_check_skips_pid_counterexample :
+    let h : List Op := fullIter 0 ++ [.kev (.exit 5), .kev (.spawn p5')] ++ fullIter 1 (.names ["ppid"])
+    (trace cfg (St.init k159) h).drop 8
+        = [.yield 0 1 (some ["ppid"]), .yield 2 9 (some ["ppid"]), .stop, .stop]
+    ∧ (strace cfg.validNames cfg.noAccessAttrs (SSt.init k159) h).drop 8
+        = [some (.yield 0 1 (some ["ppid"])), some (.yield 1 5 (some ["ppid"])),
+           some (.yield 2 9 (some ["ppid"])), some .stop] := by
+  decide
 
 end Psutil.C04
